@@ -44,6 +44,82 @@ func verifRingOf(insts []verifInst, rf int, zoneAware bool, now time.Time) (*Rin
 	return r, d
 }
 
+// The four built-in operations as documented (NOT read back from the Operation value, whose bit encoding is part of the
+// code under test): Write and WriteNoExtend accept ACTIVE only, Read accepts ACTIVE, PENDING and LEAVING, Reporting accepts
+// every state; Write extends the set on every state but ACTIVE, Read on every state but ACTIVE and LEAVING, the other two never.
+func verifOpHealthy(op Operation, s InstanceState) bool {
+	switch op {
+	case Write, WriteNoExtend:
+		return s == ACTIVE
+	case Read:
+		return s == ACTIVE || s == PENDING || s == LEAVING
+	}
+	return true
+}
+func verifOpExtends(op Operation, s InstanceState) bool {
+	switch op {
+	case Write:
+		return s != ACTIVE
+	case Read:
+		return s != ACTIVE && s != LEAVING
+	}
+	return false
+}
+
+// The encoding of operations, exhaustively over its finite domain: every set of healthy states x every extension
+// predicate over the five instance states, and the four built-in operations against their documented tables.
+func TestVerifBounded_C01_Operations(t *testing.T) {
+	all := []InstanceState{ACTIVE, LEAVING, PENDING, JOINING, LEFT}
+	cases, fails := 0, 0
+	for h := 0; h < 32; h++ {
+		for e := 0; e < 33; e++ { // e == 32: nil predicate
+			var hs []InstanceState
+			for i, s := range all {
+				if h>>i&1 == 1 {
+					hs = append(hs, s)
+				}
+			}
+			var fn func(InstanceState) bool
+			if e < 32 {
+				fn = func(s InstanceState) bool {
+					for i, q := range all {
+						if q == s {
+							return e>>i&1 == 1
+						}
+					}
+					return false
+				}
+			}
+			op := NewOp(hs, fn)
+			for i, s := range all {
+				cases++
+				wantH, wantE := h>>i&1 == 1, e < 32 && e>>i&1 == 1
+				if op.IsInstanceInStateHealthy(s) != wantH || op.ShouldExtendReplicaSetOnState(s) != wantE {
+					fails++
+					if fails <= 5 {
+						fmt.Printf("BOUNDED-VIOLATION case=c01-newop:healthy=%05b:extends=%05b:state=%v NewOp result says healthy=%v extends=%v, want healthy=%v extends=%v\n", h, e, s, op.IsInstanceInStateHealthy(s), op.ShouldExtendReplicaSetOnState(s), wantH, wantE)
+					}
+				}
+			}
+		}
+	}
+	for _, op := range []Operation{Write, WriteNoExtend, Read, Reporting} {
+		for _, s := range all {
+			cases++
+			if op.IsInstanceInStateHealthy(s) != verifOpHealthy(op, s) || op.ShouldExtendReplicaSetOnState(s) != verifOpExtends(op, s) {
+				fails++
+				if fails <= 5 {
+					fmt.Printf("BOUNDED-VIOLATION case=c01-builtin-op:%d:state=%v healthy=%v extends=%v, documented healthy=%v extends=%v\n", op, s, op.IsInstanceInStateHealthy(s), op.ShouldExtendReplicaSetOnState(s), verifOpHealthy(op, s), verifOpExtends(op, s))
+				}
+			}
+		}
+	}
+	fmt.Printf("BOUNDED-CASES name=C01_Operations n=%d distinct=%d bound=EXHAUSTIVE over the finite domain: 32 healthy-state sets x 33 extension predicates (incl. nil) x 5 states through NewOp, and the 4 built-in operations x 5 states against their documented tables\n", cases, cases)
+	if fails > 0 {
+		t.Fatalf("%d mismatches", fails)
+	}
+}
+
 // verifWalk is the lookup of the property statement: no early exits, every token is looked at.
 func verifWalk(insts []verifInst, key uint32, op Operation, rf, cfgRF int, zoneAware bool) (walked []string) {
 	type tok struct {
@@ -79,7 +155,7 @@ func verifWalk(insts []verifInst, key uint32, op Operation, rf, cfgRF int, zoneA
 		}
 		picked[o] = true
 		walked = append(walked, in.id)
-		if op.ShouldExtendReplicaSetOnState(in.state) {
+		if verifOpExtends(op, in.state) {
 			need++
 		} else if zoneAware && in.zone != "" {
 			perZone[in.zone]++
@@ -99,7 +175,7 @@ func TestVerifBounded_C01_Lookup(t *testing.T) {
 	alpha := []uint32{0, 1, 2, 5, 9, 1 << 31, 1<<32 - 3, 1<<32 - 2, 1<<32 - 1}
 	keys := []uint32{0, 1, 2, 3, 5, 6, 9, 10, 1<<31 - 1, 1 << 31, 1<<32 - 3, 1<<32 - 2, 1<<32 - 1}
 	ops := []Operation{Write, WriteNoExtend, Read, Reporting}
-	states := []InstanceState{ACTIVE, ACTIVE, ACTIVE, LEAVING, PENDING, JOINING}
+	states := []InstanceState{ACTIVE, ACTIVE, ACTIVE, LEAVING, PENDING, JOINING, LEFT}
 	now := time.Now()
 	cases, distinct, fails := 0, 0, 0
 	bufD, bufH, bufZ := MakeBuffersForGet()
@@ -140,7 +216,7 @@ func TestVerifBounded_C01_Lookup(t *testing.T) {
 				var wantIDs []string
 				for _, id := range walked {
 					in := byID[id]
-					if op.IsInstanceInStateHealthy(in.state) && !in.stale {
+					if verifOpHealthy(op, in.state) && !in.stale {
 						wantIDs = append(wantIDs, id)
 					}
 				}
